@@ -97,6 +97,7 @@ func Call(fn string, args ...*Term) *Term {
 }
 
 var intOpTokens = map[string]token.Token{"op&": token.AND, "op|": token.OR, "op^": token.XOR, "op&^": token.AND_NOT, "op<<": token.SHL, "op>>": token.SHR, "op%": token.REM}
+
 func Conv(ty string, a *Term) *Term {
 	if a.Op == "c" && (ty == "float64" || ty == "int" || ty == "uint" || ty == "uint32") {
 		return a
